@@ -52,6 +52,11 @@ type ReqFault struct {
 	// body) | send (handler blocked in Send on a stalled connection) | early
 	// (before the handler was entered)
 	When string `json:"when,omitempty"`
+	// Err: what a body Read reports once the transport is broken: "" (an
+	// opaque error, as HTTP/2 gives) | ueof (io.ErrUnexpectedEOF, which is what
+	// net/http's HTTP/1.1 bodies - chunked or with a Content-Length - return
+	// when the connection goes away)
+	Err string `json:"err,omitempty"`
 }
 
 type ReqSpec struct {
@@ -522,7 +527,11 @@ func (r *reqState) clientTask() {
 		return
 	}
 	if r.spec.Fault.Kind == "readerr" {
-		r.q.clientBreakRead(errTransport)
+		if r.spec.Fault.Err == "ueof" {
+			r.q.clientBreakRead(io.ErrUnexpectedEOF)
+		} else {
+			r.q.clientBreakRead(errTransport)
+		}
 	} else {
 		r.q.clientHalfClose()
 	}
@@ -845,6 +854,9 @@ func runMuxScenario(t *testing.T, sc *MuxScenario, tape *core.Tape) (mr *muxRun)
 			}
 			rs.q = newReqIO(sim, sp.ID, name, w)
 			rs.q.zeroReads, rs.q.eofData, rs.q.window = sp.ZeroReads, sp.EOFData, sp.Window
+			if sp.Fault.Err == "ueof" {
+				rs.q.goneErr = io.ErrUnexpectedEOF
+			}
 			rs.q.sync()
 			cw := w
 			if sp.CWeight > 0 {
@@ -1024,6 +1036,20 @@ func (mr *muxRun) globalInvariants(prop string) *Violation {
 		rule := "wedge"
 		if mr.stop == core.StopCap {
 			rule = "livelock"
+		}
+		if len(stuck) == 0 && len(mr.parked) > 0 {
+			// every request returned and every task still parked waits for the
+			// Mux's registration mutex, which nobody holds any more in any
+			// parked task: the lock was never released
+			onlyLocks := true
+			for _, p := range mr.parked {
+				if !strings.HasSuffix(p, ":lock(blocked)") {
+					onlyLocks = false
+				}
+			}
+			if onlyLocks {
+				return violationf(prop, rule, "registration-lock", "registration or removal calls never returned: every remaining task waits for the Mux's mutex, which no running task holds (stop=%s after %d steps); parked: %v", mr.stop, mr.sim.StepNo(), mr.parked)
+			}
 		}
 		if len(stuck) == 0 {
 			// requests returned but a client task never finished: harness logic
